@@ -230,6 +230,29 @@ const NUM_TYPES: [ElementaryTypeName; 6] = [
     ElementaryTypeName::REAL,
 ];
 
+/// the other elementary types, strings excepted (assigning to a string variable is "not implemented";
+/// the analyzer checks names, not types: any of them may stand where a number does; a table of type names that lost an entry shows only for that entry)
+const MORE_TYPES: [ElementaryTypeName; 12] = [
+    ElementaryTypeName::USINT,
+    ElementaryTypeName::UDINT,
+    ElementaryTypeName::ULINT,
+    ElementaryTypeName::LREAL,
+    ElementaryTypeName::BYTE,
+    ElementaryTypeName::WORD,
+    ElementaryTypeName::DWORD,
+    ElementaryTypeName::LWORD,
+    ElementaryTypeName::TIME,
+    ElementaryTypeName::DATE,
+    ElementaryTypeName::TimeOfDay,
+    ElementaryTypeName::DateAndTime,
+];
+fn int_like(t: &ElementaryTypeName) -> bool {
+    matches!(
+        t,
+        ElementaryTypeName::SINT | ElementaryTypeName::INT | ElementaryTypeName::DINT | ElementaryTypeName::LINT | ElementaryTypeName::USINT | ElementaryTypeName::UINT | ElementaryTypeName::UDINT | ElementaryTypeName::ULINT
+    )
+}
+
 fn lb(n: &str) -> ExprKind {
     ExprKind::LateBound(LateBound { name: id(n) })
 }
@@ -312,7 +335,13 @@ impl<'a, 't, 'g> VGen<'a, 't, 'g> {
                 let ms = self.t.below(5000) as i64;
                 ConstantKind::Duration(DurationLiteral { span: SourceSpan::default(), interval: time::Duration::milliseconds(ms) })
             }
-            ElementaryTypeName::STRING => ConstantKind::CharacterString(CharacterStringLiteral::new("abc".chars().collect())),
+            ElementaryTypeName::STRING | ElementaryTypeName::WSTRING => ConstantKind::CharacterString(CharacterStringLiteral::new("abc".chars().collect())),
+            ElementaryTypeName::DATE => ConstantKind::Date(ironplc_dsl::time::DateLiteral::new(time::Date::from_calendar_date(2000 + self.t.below(30) as i32, time::Month::March, 1 + self.t.below(28) as u8).unwrap())),
+            ElementaryTypeName::TimeOfDay => ConstantKind::TimeOfDay(ironplc_dsl::time::TimeOfDayLiteral::new(time::Time::from_hms(self.t.below(24) as u8, self.t.below(60) as u8, self.t.below(60) as u8).unwrap())),
+            ElementaryTypeName::DateAndTime => ConstantKind::DateAndTime(ironplc_dsl::time::DateAndTimeLiteral::new(time::PrimitiveDateTime::new(
+                time::Date::from_calendar_date(2000 + self.t.below(30) as i32, time::Month::July, 1 + self.t.below(28) as u8).unwrap(),
+                time::Time::from_hms(self.t.below(24) as u8, self.t.below(60) as u8, self.t.below(60) as u8).unwrap(),
+            ))),
             _ => ConstantKind::IntegerLiteral(IntegerLiteral { value: sint(self.t.below(100) as u128, false), data_type: None }),
         }
     }
@@ -320,7 +349,13 @@ impl<'a, 't, 'g> VGen<'a, 't, 'g> {
         if self.t.ratio(1, 4) {
             ElementaryTypeName::BOOL
         } else {
-            self.t.pick(&NUM_TYPES).clone()
+            let t = self.t.pick(&NUM_TYPES).clone();
+            // (a further choice, drawn only when wanted, so that the tape keeps its meaning)
+            if self.t.ratio(1, 3) {
+                self.t.pick(&MORE_TYPES).clone()
+            } else {
+                t
+            }
         }
     }
     /// lo < hi, small
@@ -416,10 +451,13 @@ impl<'a, 't, 'g> VGen<'a, 't, 'g> {
                                 type_name: ElementaryTypeName::INT,
                                 subrange: self.good_subrange(),
                             })),
-                            _ => InitialValueAssignmentKind::Array(ArrayInitialValueAssignment {
-                                spec: ArraySpecificationKind::Subranges(ArraySubranges { ranges: vec![self.good_subrange()], type_name: ElementaryTypeName::INT.into() }),
-                                initial_values: vec![],
-                            }),
+                            _ => {
+                                let et = self.array_elem_type(ElementaryTypeName::INT.into());
+                                InitialValueAssignmentKind::Array(ArrayInitialValueAssignment {
+                                    spec: ArraySpecificationKind::Subranges(ArraySubranges { ranges: vec![self.good_subrange()], type_name: et }),
+                                    initial_values: vec![],
+                                })
+                            }
                         };
                         elements.push(StructureElementDeclaration { name: id(&fname), init });
                     }
@@ -434,9 +472,11 @@ impl<'a, 't, 'g> VGen<'a, 't, 'g> {
                 5 => {
                     self.array_types.push(name.clone());
                     let n = 1 + self.t.count(0, 1);
+                    let et0: Type = self.num_type().into();
+                    let et = self.array_elem_type(et0);
                     DataTypeDeclarationKind::Array(ArrayDeclaration {
                         type_name: Type::from(&name),
-                        spec: ArraySpecificationKind::Subranges(ArraySubranges { ranges: (0..n).map(|_| self.good_subrange()).collect(), type_name: self.num_type().into() }),
+                        spec: ArraySpecificationKind::Subranges(ArraySubranges { ranges: (0..n).map(|_| self.good_subrange()).collect(), type_name: et }),
                         init: vec![],
                     })
                 }
@@ -470,6 +510,18 @@ impl<'a, 't, 'g> VGen<'a, 't, 'g> {
         } else {
             Type::from(name)
         }
+    }
+    /// element type of an array: elementary, or (a third of the time, when there is one) an
+    /// enumeration or structure declared earlier - a use of a type like any other (site of UnknownType)
+    fn array_elem_type(&mut self, elementary: Type) -> Type {
+        if self.t.ratio(1, 3) && self.g.want("ARRAY_OF_DERIVED_TYPE") {
+            let pool: Vec<String> = self.enums.iter().map(|e| e.name.clone()).chain(self.structs.iter().map(|s| s.name.clone())).collect();
+            if !pool.is_empty() {
+                let n = pool[self.t.below(pool.len())].clone();
+                return self.type_ref(&n);
+            }
+        }
+        elementary
     }
     fn enum_var_init(&mut self, e: usize, constant: bool) -> (InitialValueAssignmentKind, VKind) {
         let info = self.enums[e].clone();
@@ -593,9 +645,10 @@ impl<'a, 't, 'g> VGen<'a, 't, 'g> {
                         let ty = self.type_ref(&a);
                         (InitialValueAssignmentKind::LateResolvedType(ty), VKind::ArrayT)
                     } else {
+                        let et = self.array_elem_type(ElementaryTypeName::INT.into());
                         (
                             InitialValueAssignmentKind::Array(ArrayInitialValueAssignment {
-                                spec: ArraySpecificationKind::Subranges(ArraySubranges { ranges: vec![self.good_subrange()], type_name: ElementaryTypeName::INT.into() }),
+                                spec: ArraySpecificationKind::Subranges(ArraySubranges { ranges: vec![self.good_subrange()], type_name: et }),
                                 initial_values: vec![],
                             }),
                             VKind::ArrayInline,
@@ -986,7 +1039,7 @@ impl<'a, 't, 'g> VGen<'a, 't, 'g> {
                     self.cur_class = format!("{}.for", base);
                     let ints: Vec<String> = scope
                         .iter()
-                        .filter(|v| matches!(&v.kind, VKind::Simple(t) if *t != ElementaryTypeName::BOOL && *t != ElementaryTypeName::REAL))
+                        .filter(|v| matches!(&v.kind, VKind::Simple(t) if int_like(t)))
                         .map(|v| v.name.clone())
                         .collect();
                     if ints.is_empty() {
